@@ -9,8 +9,8 @@ FAULT_MODES = ["before", "before", "after", "base", "dead"]
 
 @st.composite
 def reg_cases(draw, max_nodes=8, max_ops=6, faults=True, det_share=15, min_runs=1, disturb_last=False,
-              late=True, xdeps=False, alias=False, lits=2):
-    g = specs.Gen(draw, registry=True, opaque=False, late=late, xdeps=xdeps, alias=alias, lits=lits)
+              late=True, xdeps=False, alias=False, lits=2, sread=False):
+    g = specs.Gen(draw, registry=True, opaque=False, late=late, xdeps=xdeps, alias=alias, lits=lits, sread=sread)
     n = draw(st.integers(2, max_nodes))
     # make sure there is something to store
     while len(g.nodes) < n:
@@ -123,6 +123,8 @@ def spec_classes(spec):
         cl.append("alias_source")
     if any(nd.get("xdeps") for nd in nodes):
         cl.append("source_with_extra_deps")
+    if any(nd.get("sread") is not None for nd in nodes):
+        cl.append("side_read")
     if any(nd.get("late") is not None for nd in nodes):
         cl.append("late_registration")
     if any(nd["k"] == "lit" and nd.get("stored") for nd in nodes):
